@@ -136,3 +136,45 @@ pub fn lex(text: &str) -> Vec<String> {
     }
     out
 }
+
+/// a cell of a narrow type offered where a wider cell type is declared, a value of the extra
+/// type stored through the alias, and the owner used afterwards at its own type
+pub fn cell_widening_programs() -> Vec<String> {
+    // (narrow type, initial value, extra type, value of the extra type, use of *c at the narrow type)
+    let kinds = [
+        ("int", "5", "float", "2.5", "*c + 1"),
+        ("int", "5", "string", "\"s\"", "*c * 2"),
+        ("string", "\"a\"", "int", "7", "*c + \"b\""),
+        ("float", "1.5", "int", "3", "*c * 2.0"),
+        ("bool", "true", "int", "1", "!*c && true"),
+        ("[int]", "[1]", "[string]", "[\"s\"]", "(*c)[0] + 1"),
+        ("(int, int)", "(1, 2)", "(string, int)", "(\"s\", 2)", "(*c).0 + 1"),
+        ("int", "5", "()", "()", "*c - 1"),
+    ];
+    let mut out = vec![];
+    for (t1, v1, t2, v2, usage) in kinds {
+        let wide = format!("mut ({t1}|{t2})");
+        let wide_bare = format!("mut {t1}|{t2}");
+        // through a parameter
+        out.push(format!("c := mut {t1} {v1}; widen := (m: {wide}) {{ m = {v2}; }}; widen(c); {usage}"));
+        // through a parameter typed mut any
+        out.push(format!("c := mut {t1} {v1}; widen := (m: mut any) {{ m = {v2}; }}; widen(c); {usage}"));
+        // through if-set / match on the cell
+        out.push(format!("c := mut {t1} {v1}; if m: {wide} = c {{ m = {v2}; }}; {usage}"));
+        out.push(format!("c := mut {t1} {v1}; match c {{ m: {wide} => {{ m = {v2}; }}, => {{ }}, }}; {usage}"));
+        // through an array / tuple / struct of cells
+        out.push(format!("c := mut {t1} {v1}; widen := (ms: [{wide}]) {{ ms[0] = {v2}; }}; widen([c]); {usage}"));
+        out.push(format!("c := mut {t1} {v1}; widen := (ms: ({wide}, int)) {{ ms.0 = {v2}; }}; widen((c, 1)); {usage}"));
+        out.push(format!("c := mut {t1} {v1}; widen := (ms: struct{{m: {wide}}}) {{ ms.m = {v2}; }}; widen(struct{{m := c}}); {usage}"));
+        // through a function result and a closure
+        out.push(format!("c := mut {t1} {v1}; get := () -> {wide} {{ return c; }}; get() = {v2}; {usage}"));
+        out.push(format!("c := mut {t1} {v1}; d := mut {wide_bare} c; {usage}"));
+        // a wider cell offered where the narrow one is declared (reads instead of writes)
+        out.push(format!("c := mut {t1}|{t2} {v2}; narrow := (m: mut {t1}) -> {t1} {{ return *m; }}; r := narrow(c); r"));
+        // compound assignment through the widened alias
+        out.push(format!("c := mut {t1} {v1}; widen := (m: {wide}) {{ m = {v2}; }}; g := (f: ({wide}) -> ()) {{ f(c); }}; g(widen); {usage}"));
+        // iterator of cells
+        out.push(format!("c := mut {t1} {v1}; for m in [c]~ {{ if w: {wide} = m {{ w = {v2}; }}; }}; {usage}"));
+    }
+    out
+}
